@@ -2,6 +2,7 @@ mod fw;
 mod gen;
 mod props;
 mod refm;
+mod ws;
 
 use std::path::Path;
 
@@ -13,6 +14,7 @@ fn usage() -> ! {
 }
 
 fn main() {
+    ws::init_env();
     let args: Vec<String> = std::env::args().collect();
     if args.len() < 2 {
         usage();
